@@ -141,7 +141,9 @@ func runC12InBubble(c c02Case) (out kit.Outcome) {
 	return out
 }
 
-func (c StackCfg) partitionedStrategy() bool { return c.Strategy == "lookup" || c.Strategy == "predicate" }
+func (c StackCfg) partitionedStrategy() bool {
+	return c.Strategy == "lookup" || c.Strategy == "predicate"
+}
 
 func TestC12_backlog(t *testing.T) {
 	kit.RequireMode(t, "std")
